@@ -40,6 +40,7 @@ CARD = {"A": 2, "B": 3, "C": 2, "D": 2}
 A, B, C = (Variable(n) for n in NAMES)
 D = Variable("D")
 PI1 = Variable("π1")
+PI2 = Variable("π2")
 
 
 # ------------------------------------------------------------------------------------ world
@@ -349,6 +350,9 @@ def atoms(alpha, family="calc"):
                 # through Fraction.__truediv__ / Product.__mul__ (the flattening path of the canonicaliser)
                 One() / P(B),
                 P(A | B) / (P(B) * P(C | B)),
+                # the same distribution under a second population (anything memoised on the distribution alone must keep
+                # the population apart; after seeded C10-h)
+                PopulationProbability(population=PI2, distribution=Distribution(children=(A, B))),
             ]
         return base
     if family == "print":
